@@ -20,26 +20,29 @@ import (
 )
 
 type boundsAn struct {
-	w          *World
-	scope      map[*ssa.Function]bool
-	tv         map[ssa.Value]bool  // tainted values
-	tlen       map[ssa.Value]bool  // slices whose length is tainted
-	tf         map[*types.Var]bool // tainted fields
-	retT       map[*ssa.Function][]bool
-	origin     map[ssa.Value]string
-	noWidth    bool                   // while judging an index/slice bound a small type is not a guard (the container may be smaller)
-	loopBound  map[*ssa.Phi]ssa.Value // induction variable -> the device-derived value its loop condition compares it with
-	fieldOK    map[*types.Var]int     // 0 unknown, 1 validated upper, 2 not
-	fieldOKIdx map[*types.Var]int
-	fieldNZ    map[*types.Var]int
+	w              *World
+	scope          map[*ssa.Function]bool
+	tv             map[ssa.Value]bool  // tainted values
+	tlen           map[ssa.Value]bool  // slices whose length is tainted
+	tf             map[*types.Var]bool // tainted fields
+	retT           map[*ssa.Function][]bool
+	origin         map[ssa.Value]string
+	Protected      []string
+	trustChecksums bool
+	noWidth        bool                   // while judging an index/slice bound a small type is not a guard (the container may be smaller)
+	loopBound      map[*ssa.Phi]ssa.Value // induction variable -> the device-derived value its loop condition compares it with
+	fieldOK        map[*types.Var]int     // 0 unknown, 1 validated upper, 2 not
+	fieldOKIdx     map[*types.Var]int
+	fieldNZ        map[*types.Var]int
 }
 
-func newBounds(w *World, fns []*ssa.Function) *boundsAn {
+func newBounds(w *World, fns []*ssa.Function, trustChecksums bool) *boundsAn {
 	b := &boundsAn{w: w, scope: map[*ssa.Function]bool{}, tv: map[ssa.Value]bool{}, tlen: map[ssa.Value]bool{}, tf: map[*types.Var]bool{},
 		retT: map[*ssa.Function][]bool{}, loopBound: map[*ssa.Phi]ssa.Value{}, origin: map[ssa.Value]string{}, fieldOK: map[*types.Var]int{}, fieldOKIdx: map[*types.Var]int{}, fieldNZ: map[*types.Var]int{}}
 	for _, f := range fns {
 		b.scope[f] = true
 	}
+	b.trustChecksums = trustChecksums
 	b.propagate()
 	return b
 }
@@ -87,10 +90,35 @@ func (b *boundsAn) propagate() {
 		fns = append(fns, f)
 	}
 	sort.Slice(fns, func(i, j int) bool { return fns[i].String() < fns[j].String() })
+	// decoders whose every success return lies behind a checksum equality over their input are integrity
+	// protected: under the property's single-field corruption model their fields cannot be altered without
+	// the decoder failing, so they are not taint sources
+	protected := map[*ssa.Function]bool{}
+	for _, fn := range fns {
+		if b.trustChecksums && b.checksumGuarded(fn) {
+			protected[fn] = true
+			b.Protected = append(b.Protected, fnName(fn))
+		}
+	}
 	for changed := true; changed; {
 		changed = false
 		for _, fn := range fns {
+			isProt := protected[fn]
 			allInstrs(fn, func(ins ssa.Instruction) {
+				if isProt {
+					switch x := ins.(type) {
+					case *ssa.Call:
+						if isBinaryDecode(x) {
+							return
+						}
+					case *ssa.UnOp:
+						if ia, ok := x.X.(*ssa.IndexAddr); ok && x.Op == token.MUL && isByteContainer(ia.X.Type()) {
+							return
+						}
+					case *ssa.Index:
+						return
+					}
+				}
 				switch x := ins.(type) {
 				case *ssa.Call:
 					if isBinaryDecode(x) {
@@ -365,40 +393,45 @@ func cmpEdges(bin *ssa.BinOp, mOnX bool, other ssa.Value) (upperIdx, nzIdx int) 
 			op = token.LEQ
 		}
 	}
-	zero := false
-	one := false
-	if c, ok := constInt(other); ok {
-		zero = c == 0
-		one = c == 1
-	}
+	k, isConst := constInt(other)
+	pos := isConst && k > 0   // other is a positive constant
+	zero := isConst && k == 0 // other is zero
 	switch op {
-	case token.GTR, token.GEQ: // m > K : false edge bounds m
+	case token.GTR: // m > K
 		upperIdx = 1
-		if zero && op == token.GTR || one && op == token.GEQ {
+		if isConst && k >= 0 {
+			nzIdx = 0 // m > K >= 0  => m != 0
+		}
+		if zero {
+			upperIdx = -1
+		}
+	case token.GEQ: // m >= K
+		upperIdx = 1
+		if pos {
 			nzIdx = 0
 		}
-		if zero && op == token.GTR {
-			upperIdx = -1 // m > 0 bounds nothing above on the false edge except m <= 0
-		}
-	case token.LSS, token.LEQ: // m < K : true edge bounds m
+	case token.LSS: // m < K : true edge bounds m; false edge m >= K
 		upperIdx = 0
-		if one && op == token.LSS || zero && op == token.LEQ {
+		if pos {
+			nzIdx = 1
+		}
+	case token.LEQ: // m <= K : false edge m > K
+		upperIdx = 0
+		if isConst && k >= 0 {
 			nzIdx = 1
 		}
 	case token.EQL:
 		upperIdx = 0
 		if zero {
 			nzIdx = 1
-		} else {
-			if c, ok := constInt(other); ok && c != 0 {
-				nzIdx = 0
-			}
+		} else if isConst {
+			nzIdx = 0
 		}
 	case token.NEQ:
 		upperIdx = 1
 		if zero {
 			nzIdx = 0
-		} else if c, ok := constInt(other); ok && c != 0 {
+		} else if isConst {
 			nzIdx = 1
 		}
 	}
@@ -436,12 +469,9 @@ func (b *boundsAn) directGuard(v ssa.Value, at *ssa.BasicBlock, kind guardKind, 
 				m, other = bin.Y, bin.X
 			}
 			if !in[m] {
-				// a sum/product containing the value bounds it too (unsigned monotone): m = v + k, v * k
-				if bo, ok := stripConv(m).(*ssa.BinOp); ok && (bo.Op == token.ADD || bo.Op == token.MUL) && (in[stripConv(bo.X)] || in[stripConv(bo.Y)] || in[bo.X] || in[bo.Y]) {
-					if kind == gNonZero {
-						continue
-					}
-				} else {
+				// a comparison on a value computed from v by +,-,*,/ and conversions (a geometry sanity check such as
+				// "cluster count computed from the FAT size must be < 4085") bounds v indirectly
+				if kind == gNonZero || !derivedFrom(m, in, 0) {
 					continue
 				}
 			}
@@ -467,10 +497,192 @@ func (b *boundsAn) directGuard(v ssa.Value, at *ssa.BasicBlock, kind guardKind, 
 			}
 		}
 	}
+	// validator call: g(alias) returns an error that is checked, and g rejects unbounded values
+	for _, blk := range fn.Blocks {
+		for _, ins := range blk.Instrs {
+			c, ok := ins.(*ssa.Call)
+			if !ok {
+				continue
+			}
+			g := c.Call.StaticCallee()
+			if g == nil || g.Blocks == nil || !b.w.inModule(g) || errResultIndex(g.Signature) < 0 {
+				continue
+			}
+			argIdx := -1
+			for i, a := range c.Call.Args {
+				if in[a] || in[stripConv(a)] {
+					argIdx = i
+				}
+			}
+			if argIdx < 0 || argIdx >= len(g.Params) {
+				continue
+			}
+			iff, nilIdx := errNilEdge(fn, c)
+			if iff == nil || !edgeDominates(iff.Block(), nilIdx, at) {
+				continue
+			}
+			// inside g: every success return is behind a bounding comparison on the parameter
+			p := g.Params[argIdx]
+			okAll, any := true, false
+			for _, ret := range returnsOf(g) {
+				if classifyReturn(ret) == RetError {
+					continue
+				}
+				any = true
+				sub := &boundsAn{w: b.w, scope: b.scope, tv: map[ssa.Value]bool{p: true}, tlen: b.tlen, tf: b.tf, retT: b.retT, origin: b.origin,
+					loopBound: b.loopBound, fieldOK: b.fieldOK, fieldOKIdx: b.fieldOKIdx, fieldNZ: b.fieldNZ}
+				if !sub.directGuard(p, ret.Block(), kind, depth+3) {
+					okAll = false
+				}
+			}
+			if okAll && any {
+				return true
+			}
+		}
+	}
 	return false
 }
 
+// maxBits: an upper bound on the number of significant bits of v from types and constant operands
+// (conversions from narrower types, division/shift/mask by constants, multiplication by constants).
+func (b *boundsAn) maxBits(v ssa.Value, depth int) int {
+	tb := typeBits(v.Type())
+	if tb == 0 {
+		tb = 64
+	}
+	if depth > 10 {
+		return tb
+	}
+	log2 := func(c int64) int {
+		n := 0
+		for c > 1 {
+			c >>= 1
+			n++
+		}
+		return n
+	}
+	min := func(a, b int) int {
+		if a < b {
+			return a
+		}
+		return b
+	}
+	switch x := v.(type) {
+	case *ssa.Const:
+		if c, ok := constInt(x); ok && c >= 0 {
+			return log2(c) + 1
+		}
+	case *ssa.Convert:
+		return min(tb, b.maxBits(x.X, depth+1))
+	case *ssa.ChangeType:
+		return b.maxBits(x.X, depth+1)
+	case *ssa.BinOp:
+		switch x.Op {
+		case token.QUO:
+			if c, ok := constInt(x.Y); ok && c > 0 {
+				return min(tb, b.maxBits(x.X, depth+1)-log2(c))
+			}
+			return min(tb, b.maxBits(x.X, depth+1))
+		case token.SHR:
+			if c, ok := constInt(x.Y); ok && c >= 0 {
+				return min(tb, b.maxBits(x.X, depth+1)-int(c))
+			}
+		case token.REM:
+			if c, ok := constInt(x.Y); ok && c > 0 {
+				return min(tb, log2(c)+1)
+			}
+		case token.AND:
+			if c, ok := constInt(x.Y); ok && c >= 0 {
+				return min(tb, log2(c)+1)
+			}
+		case token.MUL:
+			return min(tb, b.maxBits(x.X, depth+1)+b.maxBits(x.Y, depth+1))
+		case token.SHL:
+			if c, ok := constInt(x.Y); ok && c >= 0 {
+				return min(tb, b.maxBits(x.X, depth+1)+int(c))
+			}
+		case token.ADD:
+			a, bb := b.maxBits(x.X, depth+1), b.maxBits(x.Y, depth+1)
+			if bb > a {
+				a = bb
+			}
+			return min(tb, a+1)
+		case token.SUB:
+			return min(tb, b.maxBits(x.X, depth+1))
+		}
+	case *ssa.UnOp:
+		if x.Op == token.MUL {
+			if fa, ok := x.X.(*ssa.FieldAddr); ok {
+				if _, f, _, ok := fieldOfAddr(fa); ok {
+					return min(tb, b.fieldBits(f, depth))
+				}
+			}
+		}
+	case *ssa.Field:
+		if _, f, _, ok := fieldOfAddr(x); ok {
+			return min(tb, b.fieldBits(f, depth))
+		}
+	case *ssa.Parameter:
+		fn := x.Parent()
+		idx := -1
+		for i, p := range fn.Params {
+			if p == x {
+				idx = i
+			}
+		}
+		node := b.w.CHA().Nodes[fn]
+		m, n := 0, 0
+		if node != nil && idx >= 0 {
+			for _, e := range node.In {
+				if e.Site == nil || !b.scope[e.Caller.Func] {
+					continue
+				}
+				cc := e.Site.Common()
+				if cc.IsInvoke() || idx >= len(cc.Args) {
+					continue
+				}
+				n++
+				if bb := b.maxBits(cc.Args[idx], depth+3); bb > m {
+					m = bb
+				}
+			}
+		}
+		if n > 0 && m > 0 {
+			return min(tb, m)
+		}
+	case *ssa.Call:
+		if g := x.Call.StaticCallee(); g != nil && b.scope[g] && g.Blocks != nil && g.Signature.Results().Len() == 1 {
+			m := 0
+			for _, ret := range returnsOf(g) {
+				if bb := b.maxBits(ret.Results[0], depth+3); bb > m {
+					m = bb
+				}
+			}
+			if m > 0 {
+				return min(tb, m)
+			}
+		}
+	case *ssa.Phi:
+		m := 0
+		for _, e := range x.Edges {
+			if e == ssa.Value(x) {
+				continue
+			}
+			if bb := b.maxBits(e, depth+3); bb > m {
+				m = bb
+			}
+		}
+		if m > 0 {
+			return min(tb, m)
+		}
+	}
+	return tb
+}
+
 func (b *boundsAn) widthBelow(v ssa.Value, limitBits int) bool {
+	if b.maxBits(v, 0) <= limitBits {
+		return true
+	}
 	// value bounded by its type (and by the types of what it was converted from)
 	bitsOf := func(x ssa.Value) int { return typeBits(x.Type()) }
 	v0 := v
@@ -502,10 +714,13 @@ func (b *boundsAn) isGuarded(v ssa.Value, at *ssa.BasicBlock, kind guardKind, de
 		}
 		return true
 	}
+	if kind == gUpper && isLenCall(v) {
+		return true // the length of memory that already exists
+	}
 	if b.directGuard(v, at, kind, depth) {
 		return true
 	}
-	if kind == gUpper && !b.noWidth && b.widthBelow(v, 16) {
+	if kind == gUpper && !b.noWidth && depth == 0 && b.widthBelow(v, 24) {
 		return true
 	}
 	switch x := v.(type) {
@@ -550,6 +765,10 @@ func (b *boundsAn) isGuarded(v ssa.Value, at *ssa.BasicBlock, kind guardKind, de
 	case *ssa.Phi:
 		if lb, ok := b.loopBound[x]; ok && kind == gUpper {
 			return b.isGuarded(lb, x.Block(), kind, depth+1)
+		}
+		// min pattern: v = phi(a, b) selected by a comparison of a with b: v <= both
+		if kind == gUpper && len(x.Edges) == 2 && phiIsMin(x) {
+			return b.isGuarded(x.Edges[0], x.Block(), kind, depth+1) || b.isGuarded(x.Edges[1], x.Block(), kind, depth+1)
 		}
 		for _, e := range x.Edges {
 			if !b.isGuarded(e, x.Block(), kind, depth+1) {
@@ -664,14 +883,31 @@ func (b *boundsAn) fieldValidated(f *types.Var, kind guardKind) bool {
 
 func (b *boundsAn) validatedBeforeSuccess(st *ssa.Store, kind guardKind) bool {
 	fn := st.Parent()
-	rets := returnsOf(fn)
+	// candidates: the stored value itself and every later load of the same field of the same object
+	cands := []ssa.Value{st.Val}
+	if fa, ok := st.Addr.(*ssa.FieldAddr); ok {
+		allInstrs(fn, func(ins ssa.Instruction) {
+			if ld, ok := ins.(*ssa.UnOp); ok && ld.Op == token.MUL {
+				if fa2, ok := ld.X.(*ssa.FieldAddr); ok && fa2.Field == fa.Field && sameBase(fa2.X, fa.X) {
+					cands = append(cands, ld)
+				}
+			}
+		})
+	}
 	any := false
-	for _, ret := range rets {
+	for _, ret := range returnsOf(fn) {
 		if classifyReturn(ret) == RetError {
 			continue
 		}
 		any = true
-		if !b.directGuard(st.Val, ret.Block(), kind, 0) {
+		ok := false
+		for _, c := range cands {
+			if b.directGuard(c, ret.Block(), kind, 0) {
+				ok = true
+				break
+			}
+		}
+		if !ok {
 			return false
 		}
 	}
@@ -809,6 +1045,200 @@ func isInductionPhi(ph *ssa.Phi) bool {
 			if stripConv(bo.X) == ssa.Value(ph) || stripConv(bo.Y) == ssa.Value(ph) {
 				return true
 			}
+		}
+	}
+	return false
+}
+
+// phiIsMin: the two incoming values are selected by a comparison between (aliases of) themselves in such a way
+// that the smaller is chosen: if a > b { v = b } / if b < a { v = b } ...
+func phiIsMin(ph *ssa.Phi) bool {
+	a, b := stripConv(ph.Edges[0]), stripConv(ph.Edges[1])
+	for _, cond := range phiControls(ph) {
+		bin, ok := cond.(*ssa.BinOp)
+		if !ok {
+			continue
+		}
+		x, y := stripConv(bin.X), stripConv(bin.Y)
+		if !((x == a && y == b) || (x == b && y == a)) {
+			// clamp-to-remaining: if p + a > q { v = q - p } else { v = a }
+			if clampToRemaining(bin, a, b) {
+				return true
+			}
+			continue
+		}
+		switch bin.Op {
+		case token.GTR, token.GEQ, token.LSS, token.LEQ:
+			// which value flows in on the edge where the comparison is true?
+			iffBlock := bin.Block()
+			iff, ok := lastInstr(iffBlock).(*ssa.If)
+			if !ok || iff.Cond != ssa.Value(bin) {
+				continue
+			}
+			// value chosen when cond true = the edge whose predecessor is (dominated by) Succs[0]
+			var whenTrue ssa.Value
+			for i, pred := range ph.Block().Preds {
+				if pred == iffBlock.Succs[0] || iffBlock.Succs[0].Dominates(pred) && iffBlock.Succs[0] != ph.Block() {
+					whenTrue = stripConv(ph.Edges[i])
+				}
+			}
+			if whenTrue == nil {
+				// the true edge goes straight to the join: the value from the If block itself
+				for i, pred := range ph.Block().Preds {
+					if pred == iffBlock && iffBlock.Succs[0] == ph.Block() {
+						whenTrue = stripConv(ph.Edges[i])
+					}
+				}
+			}
+			if whenTrue == nil {
+				continue
+			}
+			larger := x // for x > y, x >= y: x is the larger when true
+			if bin.Op == token.LSS || bin.Op == token.LEQ {
+				larger = y
+			}
+			// min is selected when, on the true edge, the value that flows in is NOT the larger one
+			if whenTrue != larger {
+				return true
+			}
+		}
+	}
+	return false
+}
+
+// checksumGuarded: every success return of fn is dominated by the equal edge of a comparison between a
+// stored value and the result of a checksum computation (a call whose name mentions checksum/crc).
+func (b *boundsAn) checksumGuarded(fn *ssa.Function) bool {
+	isSum := func(v ssa.Value) bool {
+		p := b.w.prov(v, provOpts{})
+		return p.hasCall(func(rt Root) bool {
+			n := ""
+			if rt.Fn != nil {
+				n = strings.ToLower(fullFuncName(rt.Fn))
+			} else if rt.Meth != nil {
+				n = strings.ToLower(rt.Meth.FullName())
+			}
+			return strings.Contains(n, "checksum") || strings.Contains(n, "crc")
+		})
+	}
+	var guards []struct {
+		iff *ssa.If
+		eq  int
+	}
+	for _, blk := range fn.Blocks {
+		iff, ok := lastInstr(blk).(*ssa.If)
+		if !ok {
+			continue
+		}
+		x, y, eqIdx, ok := eqEdge(iff)
+		if !ok {
+			continue
+		}
+		if isSum(x) != isSum(y) { // exactly one side is the computed checksum
+			guards = append(guards, struct {
+				iff *ssa.If
+				eq  int
+			}{iff, eqIdx})
+		}
+	}
+	if len(guards) == 0 {
+		return false
+	}
+	any := false
+	for _, ret := range returnsOf(fn) {
+		if classifyReturn(ret) == RetError {
+			continue
+		}
+		// a nil result without error (e.g. "not present") carries no data
+		any = true
+		dom := false
+		for _, g := range guards {
+			if edgeDominates(g.iff.Block(), g.eq, ret.Block()) {
+				dom = true
+			}
+		}
+		if !dom {
+			return false
+		}
+	}
+	return any
+}
+
+// fieldBits: the widest value stored to field f by in-scope functions (type widths of what is stored).
+func (b *boundsAn) fieldBits(f *types.Var, depth int) int {
+	tb := typeBits(f.Type())
+	if tb == 0 {
+		tb = 64
+	}
+	if depth > 6 {
+		return tb
+	}
+	b.w.buildFieldIndex()
+	m, n := 0, 0
+	for _, st := range b.w.fieldStoreIns[f] {
+		if !b.scope[st.Parent()] {
+			continue
+		}
+		n++
+		if bb := b.maxBits(st.Val, depth+3); bb > m {
+			m = bb
+		}
+	}
+	if n == 0 || m == 0 || m > tb {
+		return tb
+	}
+	return m
+}
+
+// clampToRemaining recognises `if p + a > q { v = q - p }` (v = phi(a, q - p)): v <= q - p and v <= a.
+func clampToRemaining(bin *ssa.BinOp, e0, e1 ssa.Value) bool {
+	if bin.Op != token.GTR && bin.Op != token.GEQ && bin.Op != token.LSS && bin.Op != token.LEQ {
+		return false
+	}
+	sum, q := stripConv(bin.X), stripConv(bin.Y)
+	if bin.Op == token.LSS || bin.Op == token.LEQ {
+		sum, q = q, sum
+	}
+	add, ok := sum.(*ssa.BinOp)
+	if !ok || add.Op != token.ADD {
+		return false
+	}
+	for _, pair := range [][2]ssa.Value{{e0, e1}, {e1, e0}} {
+		a, rem := pair[0], pair[1]
+		sub, ok := rem.(*ssa.BinOp)
+		if !ok || sub.Op != token.SUB || stripConv(sub.X) != q {
+			continue
+		}
+		p := stripConv(sub.Y)
+		ax, ay := stripConv(add.X), stripConv(add.Y)
+		if (ax == p && ay == a) || (ay == p && ax == a) {
+			return true
+		}
+		// p may be recomputed (len(b) twice): compare by expression string
+		if (exprString(ax, 0) == exprString(p, 0) && ay == a) || (exprString(ay, 0) == exprString(p, 0) && ax == a) {
+			return true
+		}
+	}
+	return false
+}
+
+// derivedFrom: m is computed from a member of set through arithmetic and conversions only.
+func derivedFrom(m ssa.Value, set map[ssa.Value]bool, depth int) bool {
+	if depth > 10 {
+		return false
+	}
+	if set[m] {
+		return true
+	}
+	switch x := m.(type) {
+	case *ssa.Convert:
+		return derivedFrom(x.X, set, depth+1)
+	case *ssa.ChangeType:
+		return derivedFrom(x.X, set, depth+1)
+	case *ssa.BinOp:
+		switch x.Op {
+		case token.ADD, token.SUB, token.MUL, token.QUO, token.SHL, token.SHR:
+			return derivedFrom(x.X, set, depth+1) || derivedFrom(x.Y, set, depth+1)
 		}
 	}
 	return false
